@@ -309,6 +309,10 @@ func report(out *checkOutcome, seed int, wall float64, repo string) int {
 	}
 	if len(out.errs) > 0 {
 		for _, e := range out.errs {
+			if strings.Contains(e, "unknown identifier") || strings.Contains(e, "contract drift") || strings.Contains(e, "no such call in this function") {
+				fmt.Fprintln(os.Stderr, "CONTRACT-DRIFT:", e, "(a contract in /repo/*_verif.go refers to code that no longer exists under that name - e.g. a renamed local, a removed call or a renumbered loop; the contract needs maintenance; this is NOT a property violation)")
+				continue
+			}
 			fmt.Fprintln(os.Stderr, "TOOL-ERROR:", e)
 		}
 		if code == 0 {
